@@ -11,6 +11,7 @@ import (
 	"fmt"
 	"go/ast"
 	"go/parser"
+	"go/printer"
 	"go/token"
 	"os"
 	"path/filepath"
@@ -36,12 +37,29 @@ var facts = []fact{
 	{"routeTableBase", "Nat", "plugin/driver/utils/utils_linux.go", "GetRouteTableID", "binlit + 0", "1000 + linkIndex"},
 	{"vethHashLen", "Nat", "pkg/link/veth.go", "VethNameForPod", "slicehigh 0", "hex digest truncation"},
 	{"gatewayIndex", "Int", "pkg/ip/ip.go", "DeriveGatewayIP", "callarg GetIPAtIndex 1 0", "index passed to GetIPAtIndex"},
+	// C15
+	{"bwKilo", "Nat", "pkg/k8s/k8s.go", "", "const KILOBYTE", "unit multiplier"},
+	{"bwMega", "Nat", "pkg/k8s/k8s.go", "", "const MEGABYTE", "unit multiplier"},
+	{"bwGiga", "Nat", "pkg/k8s/k8s.go", "", "const GIGABYTE", "unit multiplier"},
+	{"bwTera", "Nat", "pkg/k8s/k8s.go", "", "const TERABYTE", "unit multiplier"},
+	{"bwNoLetterGuard", "Nat", "pkg/k8s/k8s.go", "parseBandwidth", "guard i < 0", "1 iff the 'no unit letter' index is guarded before slicing"},
+	{"bwUnitsT", "CharLists", "pkg/k8s/k8s.go", "parseBandwidth", "caselit 0", "unit spellings"},
+	{"bwUnitsG", "CharLists", "pkg/k8s/k8s.go", "parseBandwidth", "caselit 1", "unit spellings"},
+	{"bwUnitsM", "CharLists", "pkg/k8s/k8s.go", "parseBandwidth", "caselit 2", "unit spellings"},
+	{"bwUnitsK", "CharLists", "pkg/k8s/k8s.go", "parseBandwidth", "caselit 3", "unit spellings"},
+	{"bwUnitsB", "CharLists", "pkg/k8s/k8s.go", "parseBandwidth", "caselit 4", "unit spellings"},
+}
+
+type constDef struct {
+	expr ast.Expr
+	iota int64
 }
 
 type env struct {
 	fset   *token.FileSet
 	file   *ast.File
-	consts map[string]ast.Expr
+	consts map[string]constDef
+	iota   int64
 }
 
 var timeUnits = map[string]int64{"Nanosecond": 1, "Microsecond": 1e3, "Millisecond": 1e6, "Second": 1e9, "Minute": 60e9, "Hour": 3600e9}
@@ -101,8 +119,15 @@ func (e *env) eval(x ast.Expr) (int64, bool) {
 			}
 		}
 	case *ast.Ident:
+		if v.Name == "iota" {
+			return e.iota, true
+		}
 		if c, ok := e.consts[v.Name]; ok {
-			return e.eval(c)
+			save := e.iota
+			e.iota = c.iota
+			n, ok := e.eval(c.expr)
+			e.iota = save
+			return n, ok
 		}
 	case *ast.SelectorExpr:
 		if p, ok := v.X.(*ast.Ident); ok && p.Name == "time" {
@@ -206,11 +231,25 @@ func (e *env) locate(root ast.Node, sel string) (int64, string, error) {
 		if !ok {
 			return 0, "", fmt.Errorf("const %s not found", f[1])
 		}
-		if b, ok := c.(*ast.BasicLit); ok && b.Kind == token.STRING {
+		if b, ok := c.expr.(*ast.BasicLit); ok && b.Kind == token.STRING {
 			s, _ := strconv.Unquote(b.Value)
 			return 0, s, nil
 		}
-		return e.pick([]ast.Expr{c}, 0, sel)
+		return e.pick([]ast.Expr{&ast.Ident{Name: f[1]}}, 0, sel)
+	case "guard": // guard <text>: 1 if an if-statement whose condition prints as <text> exists in the function, else 0
+		want := strings.Join(f[1:], " ")
+		found := int64(0)
+		ast.Inspect(root, func(n ast.Node) bool {
+			if is, ok := n.(*ast.IfStmt); ok {
+				var sb strings.Builder
+				printer.Fprint(&sb, e.fset, is.Cond)
+				if sb.String() == want {
+					found = 1
+				}
+			}
+			return true
+		})
+		return found, "", nil
 	case "caselit": // caselit <k>: all string literals of the k-th case clause list, joined by ","
 		var clauses []*ast.CaseClause
 		ast.Inspect(root, func(n ast.Node) bool {
@@ -270,14 +309,21 @@ func main() {
 				failed = true
 				continue
 			}
-			e = &env{fset: fset, file: af, consts: map[string]ast.Expr{}}
+			e = &env{fset: fset, file: af, consts: map[string]constDef{}}
 			for _, d := range af.Decls {
 				if g, ok := d.(*ast.GenDecl); ok && (g.Tok == token.CONST || g.Tok == token.VAR) {
-					for _, s := range g.Specs {
+					var last []ast.Expr
+					for idx, s := range g.Specs {
 						vs := s.(*ast.ValueSpec)
+						vals := vs.Values
+						if len(vals) == 0 && g.Tok == token.CONST {
+							vals = last // implicit repetition inside a const block
+						} else {
+							last = vals
+						}
 						for i, n := range vs.Names {
-							if i < len(vs.Values) {
-								e.consts[n.Name] = vs.Values[i]
+							if i < len(vals) {
+								e.consts[n.Name] = constDef{vals[i], int64(idx)}
 							}
 						}
 					}
@@ -322,6 +368,16 @@ func main() {
 			}
 		case "String":
 			fmt.Fprintf(&sb, "def %s : String := %s\n", ft.Name, strconv.Quote(s))
+		case "CharLists": // comma separated spellings as lists of characters (kernel-reducible, unlike String ops)
+			var items []string
+			for _, w := range strings.Split(s, ",") {
+				var cs []string
+				for _, r := range w {
+					cs = append(cs, fmt.Sprintf("Char.ofNat %d", r))
+				}
+				items = append(items, "["+strings.Join(cs, ", ")+"]")
+			}
+			fmt.Fprintf(&sb, "def %s : List (List Char) := [%s]  -- %s\n", ft.Name, strings.Join(items, ", "), strconv.Quote(s))
 		}
 	}
 	sb.WriteString("end Terway.Gen\n")
